@@ -17,9 +17,11 @@ def asymmetric(st):
     return any(st.w[a][k][q] != st.w[a][q][k] for a in range(st.L) for k in range(st.K) for q in range(st.K))
 
 
-def judge(ctx, line, st0, A, after, what, stats):
+def judge(ctx, line, st0, A, after, what, stats, reached=False):
+    # reached: the state was REACHED by the real code from a real start (a trajectory) -- it is judged whatever it looks like;
+    # an INSTALLED state with non-zero rows outside the vertex lists is not reachable (proved) and is set aside
     stats['steps'] += 1
-    if not analytic.invariant_holds(st0, A):
+    if not reached and not analytic.invariant_holds(st0, A):
         stats['unreachable'] += 1            # membership rows outside the vertex lists are non-zero: not a reachable state
         return
     rep = analytic.step_report(st0, A, after)
@@ -121,7 +123,7 @@ def run(ctx):
                 its = sorted(sts)
                 for a, b in zip(its, its[1:]):
                     if b == a + 1:
-                        judge(ctx, traj[c - 600000], sts[a], A, sts[b], 'realization %d iteration %d -> %d' % (r, a, b), stats)
+                        judge(ctx, traj[c - 600000], sts[a], A, sts[b], 'realization %d iteration %d -> %d' % (r, a, b), stats, reached=True)
                         keys.add((m['directed'], m['assort'], m['from_init'], 'trajectory'))
     ctx.oracle.update({'evaluations': stats['steps'], 'distinct_nontrivial': len(keys), 'steps': stats,
                        'rule': 'monitor on implementation steps: exact-ish Poisson log-likelihood (python, math.fsum) before and after one sweep of the real code, from installed adversarial states (log-uniform magnitudes up to 1e+-4.5, zeros, symmetric and asymmetric affinities) and along real trajectories of all 8 variants; a step is judged only if clean (no entry snapped to zero, every observed rate > 1e-6 at the three intermediate states and after); flagged when LL drops by more than 1e-9 relative. The two recorded witnesses are replayed first. distinct = (variant, regime)'})
